@@ -1,2 +1,68 @@
-(* C01 -- reads return exactly what the accepted writes imply. (statements to be added) *)
-From WB Require Import Base.Str Model.Key Model.Store Proofs.StoreFacts.
+(* C01 -- Reads return exactly what the accepted writes imply.
+   Statements only; proofs in Proofs/.  Specification: Spec/MapSpec.v. *)
+From WB Require Import Base.Str Base.Json Model.Key Model.Store Model.Match Model.Entry Model.Core
+  Spec.MapSpec Proofs.StoreFacts Proofs.TreeInv Proofs.CoreFacts Proofs.C01Proof.
+
+(* one request: the invariant is kept, the map changes as the specification says for the answer
+   given, and the answer of a read is the one the specification prescribes *)
+Theorem C01_step_refines :
+  forall s o, Inv s -> c01_op o -> import_ok o ->
+    o_res (snd (step s o)) <> RCrash ->
+    Inv (fst (step s o)) /\
+    write_effect (abs s) (abs (fst (step s o))) o (o_res (snd (step s o))) /\
+    read_ok (abs s) o (o_res (snd (step s o))).
+Proof. exact step_refines. Qed.
+Print Assumptions C01_step_refines.
+
+(* every finite history of get/cget/pget/ls/pls/len/set/cset/delete/pdelete/import requests,
+   from any clients, starting from the empty store *)
+Theorem C01_run_refines :
+  forall ops, Forall c01_op ops -> Forall import_ok ops -> no_crash (run init ops) ->
+    spec_trace (abs init) ops (run init ops).
+Proof. exact run_refines_init. Qed.
+Print Assumptions C01_run_refines.
+
+Theorem C01_initially_empty : forall q, abs init q = None.
+Proof. exact abs_init. Qed.
+Print Assumptions C01_initially_empty.
+
+(* a request answered with an error changes nothing a later request can observe *)
+Theorem C01_error_is_noop :
+  forall s o code, Inv s -> c01_op o -> import_ok o ->
+    o_res (snd (step s o)) = RErr code ->
+    meq (abs (fst (step s o))) (abs s) /\ Inv (fst (step s o)).
+Proof. exact error_is_noop. Qed.
+Print Assumptions C01_error_is_noop.
+
+Theorem C01_rejected_write_is_identity :
+  forall s o code, Inv s -> import_ok o ->
+    match o with OSet _ _ _ _ | OCSet _ _ _ _ _ | OPDelete _ _ | OImport _ => True | _ => False end ->
+    o_res (snd (step s o)) = RErr code -> fst (step s o) = s.
+Proof. exact rejected_write_is_identity. Qed.
+Print Assumptions C01_rejected_write_is_identity.
+
+(* ls: the distinct next segments of the stored keys below the parent, None iff nothing there *)
+Theorem C01_ls_exact :
+  forall (V : Type) (n : node V) P, wfn n -> cleann n ->
+    match ls_at n P with
+    | Some l => NoDup l /\ forall x, In x l <-> exists q e, lookup n (P ++ x :: q) = Some e
+    | None => forall q, lookup n (P ++ q) = None
+    end.
+Proof. exact @ls_exact. Qed.
+Print Assumptions C01_ls_exact.
+
+(* non-vacuity: a concrete history satisfies the hypotheses and exercises accepted and rejected writes *)
+Definition C01_example_ops : list op :=
+  [OSet 1 [97;47;98] (JNum [49]) false; OCSet 2 [97;47;98] (JNum [50]) 5 false;
+   OCSet 2 [99] (JNum [50]) 0 false; OSet 1 [99] JNull false; OPDelete 1 [97;47;35]; OGet [97;47;98]; OLs None].
+
+Example C01_nonvacuous :
+  Forall c01_op C01_example_ops /\ Forall import_ok C01_example_ops /\
+  map o_res (run init C01_example_ops) =
+    [RUnit; RErr 18; RUnit; RErr 17; RKvs [([97;47;98], JNum [49])]; RErr 5; RNames [[99]]].
+Proof.
+  split; [|split].
+  - unfold C01_example_ops. repeat (apply Forall_cons; [exact I|]). apply Forall_nil.
+  - unfold C01_example_ops. repeat (apply Forall_cons; [exact I|]). apply Forall_nil.
+  - vm_compute. reflexivity.
+Qed.
